@@ -193,7 +193,7 @@ pub fn eval(ctx: &Ctx, op: &str, a: &[&str]) -> Option<String> {
         }
         // st.genocli kinds cols samples records : the binaries: `sfs create | sfs stat --precision 12`
         "st.genocli" => {
-            let cs = crate::vcf::CallSet { cols: a[1].split(',').map(|s| s.to_string()).collect(), recs: create::parse_records(a[3]), extras: false, wide: 0 };
+            let cs = crate::vcf::CallSet { cols: a[1].split(',').map(|s| s.to_string()).collect(), recs: create::parse_records(a[3]), extras: a[1].split(',').count() % 2 == 1, wide: 0 };
             let spec = create::CliSpec { container: "vcf", transport: "stdin", threads: 4, layout: 0 };
             let o1 = create::run_create(ctx, &cs, &spec, &create::parse_samples(a[2]), &None, false, None, "stgeno")?;
             if cli::class(&o1) != "OK" { return Some(format!("STAGE1 {}", cli::class(&o1))); }
@@ -266,7 +266,10 @@ pub fn gen_c06(ctx: &Ctx, rng: &mut Rng, out: &mut Vec<String>) {
         let two_ind = i % 10 == 9;       // two individuals -> 3x3: KING, R0, R1
         let (npops, ncols) = if two_ind { (2, 2 + (i / 10) % 2) } else { (npops, ncols) };
         let mut g = crate::creategen::Gen { rng: &mut *rng };
-        let mut assign = g.assignment(ncols, npops, if ncols > npops { 15 } else { 0 });
+        // every twentieth call set: one population holding all of an odd number of columns (pooled, no sample list, INFO-rich VCF)
+        let force_pooled = npops == 1 && i % 20 == 0 && !two_ind;
+        let ncols = if force_pooled { 3 + 2 * ((i / 20) % 2) } else { ncols };
+        let mut assign = if force_pooled { vec![Some(0); ncols] } else { g.assignment(ncols, npops, if ncols > npops { 15 } else { 0 }) };
         if two_ind { assign = vec![Some(0), Some(1)]; assign.resize(ncols, None); }
         // every population needs at least one sample
         for p in 0..npops { if !assign.iter().any(|a| *a == Some(p)) { if let Some(slot) = assign.iter().position(|a| a.is_none()).or(Some(p % ncols)) { assign[slot] = Some(p); } } }
@@ -274,7 +277,9 @@ pub fn gen_c06(ctx: &Ctx, rng: &mut Rng, out: &mut Vec<String>) {
         let mut recs = Vec::new();
         for r in 0..nrec { recs.push(("chr1".to_string(), 10 + r, crate::creategen::record(&mut g, &assign, [88, 8, 4, 0], false, true))); }
         let order: Vec<usize> = { let mut o: Vec<usize> = (0..ncols).filter(|c| assign[*c].is_some()).collect(); g.rng.shuffle(&mut o); o };
-        let sl = crate::creategen::samples_arg(&order, &assign, None, false);
+        // one population holding every column: no sample list at all (all samples pooled), as often as a list
+        let pooled = npops == 1 && assign.iter().all(|a| a.is_some()) && i % 2 == 0;
+        let sl = if pooled { "N".to_string() } else { crate::creategen::samples_arg(&order, &assign, None, false) };
         let sizes = crate::creategen::pop_sizes(&order, &assign);
         let shape: Vec<usize> = sizes.iter().map(|n| 2 * n + 1).collect();
         let ks = applicable(shape.len(), &shape);
@@ -308,7 +313,10 @@ pub fn gen_c14(ctx: &Ctx, rng: &mut Rng, out: &mut Vec<String>) {
             // the edit must be the statistic of the edited spectrum)
             if i % 3 == 0 { out.push(format!("st.rel\tmonoip\t{k}\t{sh}\t{bs}\t{}", bits(&[rng.range(0, 100000) as f64, rng.range(0, 100000) as f64]))); }
             // scaling
-            let c = *rng.pick(&[2.0f64, 0.5, 3.0, 0.1, 1000.0, 7.25, 1e-3]);
+            // constants across the whole binary64 range; the two D statistics square the number of segregating sites, so they stay within
+            // a range where that square is finite (their scale behaviour is not part of the property anyway)
+            let c = if k.starts_with("d-") { *rng.pick(&[2.0f64, 0.5, 3.0, 0.1, 1000.0, 7.25, 1e-3, 1e-18, 1e-24, 1e100]) }
+                    else { *rng.pick(&[2.0f64, 0.5, 3.0, 0.1, 1000.0, 7.25, 1e-3, 1e-18, 1e-24, 1e-100, 1e-290, 1e100, 1e280, 8.673617379884035e-19]) };
             out.push(format!("st.rel\tscale\t{k}\t{sh}\t{bs}\t{:016x}", c.to_bits()));
             // swapping the two populations
             if d == 2 && ["f2", "fst", "pi-xy", "king", "r0", "r1"].contains(k) { out.push(format!("st.rel\tswap\t{k}\t{sh}\t{bs}\t-")); }
